@@ -183,6 +183,9 @@ fn check_error(i: u64, e: &DbError, rate_limit: bool) -> bool {
 
 struct C08Script {
     deep_nesting: Option<usize>,
+    /// Custom (id 0x0000) column types, as type-name strings, to put in the wide
+    /// query's metadata instead of the regular columns.
+    custom_types: Option<Vec<String>>,
     tablets: bool,
 }
 
@@ -223,6 +226,28 @@ impl Script for C08Script {
                 };
             }
             if text.starts_with(WIDE_Q) {
+                if let Some(types) = &self.custom_types {
+                    // Field-aware mutation: type ids replaced by custom types whose
+                    // class-name strings come from a grammar-based fuzzer.
+                    let cols: Vec<ColSpec> = types
+                        .iter()
+                        .enumerate()
+                        .map(|(i, t)| {
+                            let mut w2 = W::new();
+                            w2.string(t);
+                            col("ks1", "wide", &format!("c{i}"), CType::Raw(0x0000, w2.buf))
+                        })
+                        .collect();
+                    let body = wire::body_rows(&cols, &[], &Default::default());
+                    w.fault(world::Fault::Corrupt);
+                    crate::runner::note(&format!("custom type strings {:?}", types.iter().map(|t| t.chars().take(120).collect::<String>()).collect::<Vec<_>>()));
+                    return Reply::Raw {
+                        opcode: wire::OP_RESULT,
+                        body,
+                        env: Envelope::default(),
+                        delay: w.think(),
+                    };
+                }
                 if let Some(depth) = self.deep_nesting {
                     // Field-aware mutation: nesting deepened in the result metadata.
                     let mut raw = Vec::new();
@@ -287,6 +312,7 @@ struct Plan {
     target_frame: Option<u64>,
     mutation: Option<Mutation>,
     deep_nesting: Option<usize>,
+    custom_types: Option<Vec<String>>,
     compression: Option<scylla::frame::Compression>,
     auth: bool,
     metadata_id_ext: bool,
@@ -404,6 +430,7 @@ pub fn run(req: &RunRequest) -> Value {
                     Some(Mutation::Truncate { at: offset as usize })
                 },
                 deep_nesting: None,
+                custom_types: None,
                 compression: None,
                 auth: false,
                 metadata_id_ext: true,
@@ -414,15 +441,23 @@ pub fn run(req: &RunRequest) -> Value {
         } else {
             let fault_free = tape::chance("c08:fault_free", 1, 10);
             let deep = !fault_free && tape::chance("c08:deep", 1, 25);
+            let custom = !fault_free && !deep && tape::chance("c08:custom", 1, 12);
+            let custom_types = if custom {
+                Some((0..tape::range("c08:custom_n", 1, 4)).map(|_| fuzz_custom_type()).collect())
+            } else {
+                None
+            };
+            let deep = deep || custom;
             Plan {
                 enumerated: false,
+                custom_types,
                 target_frame: if fault_free || deep {
                     None
                 } else {
                     Some(tape::choose("c08:frame", ENUM_FRAMES + 20))
                 },
                 mutation: if fault_free || deep { None } else { Some(draw_mutation()) },
-                deep_nesting: if deep {
+                deep_nesting: if deep && !custom {
                     Some([8, 64, 1000, 20_000, 120_000][tape::choose("c08:depth", 5) as usize])
                 } else {
                     None
@@ -555,6 +590,7 @@ async fn main(plan: Plan) -> Outcome {
         let mut w = world::world();
         w.script = Some(Box::new(C08Script {
             deep_nesting: plan.deep_nesting,
+            custom_types: plan.custom_types.clone(),
             tablets: true,
         }));
         if let (Some(f), Some(m)) = (plan.target_frame, plan.mutation.clone()) {
@@ -572,7 +608,7 @@ async fn main(plan: Plan) -> Outcome {
         fetch_schema: true,
         ..SessionCfg::default()
     };
-    let clean = plan.mutation.is_none() && plan.deep_nesting.is_none();
+    let clean = plan.mutation.is_none() && plan.deep_nesting.is_none() && plan.custom_types.is_none();
     let session: Arc<Session> = {
         // Auth is negotiated by the mock regardless of the credentials.
         let built = step(&mut out, "session", async {
@@ -869,12 +905,15 @@ fn finish(mut out: Outcome, plan: &Plan) -> Outcome {
         let w = world::world();
         (w.mutation_fired.clone(), w.frames_out)
     };
-    out.nontrivial = fired.is_some() || plan.deep_nesting.is_some();
+    out.nontrivial = fired.is_some() || plan.deep_nesting.is_some() || plan.custom_types.is_some();
+    if plan.custom_types.is_some() {
+        out.count("custom_type_fuzz_runs", 1);
+    }
     out.count("frames_out", frames_out);
     if fired.is_some() {
         out.count(if plan.enumerated { "enum_truncations_fired" } else { "sampled_mutations_fired" }, 1);
     }
-    if plan.mutation.is_none() && plan.deep_nesting.is_none() {
+    if plan.mutation.is_none() && plan.deep_nesting.is_none() && plan.custom_types.is_none() {
         out.count("clean_runs", 1);
     }
     // Annotate violations with the damage so that the message pins the input.
@@ -895,10 +934,93 @@ fn finish(mut out: Outcome, plan: &Plan) -> Outcome {
         "target_frame": plan.target_frame,
         "mutation": plan.mutation.as_ref().map(|m| m.describe()),
         "deep_nesting": plan.deep_nesting,
+        "custom_types": plan.custom_types.as_ref().map(|v| v.iter().map(|t| t.chars().take(80).collect::<String>()).collect::<Vec<_>>()),
         "fired": fired,
         "compression": format!("{:?}", plan.compression),
         "auth": plan.auth, "metadata_id_ext": plan.metadata_id_ext, "tablets_ext": plan.tablets_ext,
         "frames_out": frames_out,
     });
     out
+}
+
+/// Grammar-based generator of (mostly slightly broken) Cassandra custom type
+/// class-name strings, as found in result metadata for type id 0x0000.
+fn fuzz_custom_type() -> String {
+    const P: &str = "org.apache.cassandra.db.marshal.";
+    fn simple() -> String {
+        const NAMES: [&str; 10] = [
+            "Int32Type", "UTF8Type", "LongType", "BytesType", "UUIDType", "BooleanType", "DurationType",
+            "NoSuchType", "", "TimestampType",
+        ];
+        let n = NAMES[tape::choose("c08:ct_simple", NAMES.len() as u64) as usize];
+        if tape::chance("c08:ct_prefix", 1, 2) { format!("{P}{n}") } else { n.to_string() }
+    }
+    fn hex(s: &str) -> String {
+        s.bytes().map(|b| format!("{b:02x}")).collect()
+    }
+    fn gen_type(depth: u32) -> String {
+        let pre = if tape::chance("c08:ct_prefix2", 1, 2) { P } else { "" };
+        if depth == 0 {
+            return simple();
+        }
+        match tape::choose("c08:ct_kind", 9) {
+            0 => simple(),
+            1 => format!("{pre}ListType({})", gen_type(depth - 1)),
+            2 => format!("{pre}SetType({})", gen_type(depth - 1)),
+            3 => format!("{pre}MapType({},{})", gen_type(depth - 1), gen_type(depth - 1)),
+            4 => format!("{pre}TupleType({},{})", gen_type(depth - 1), gen_type(depth - 1)),
+            5 => format!("{pre}FrozenType({})", gen_type(depth - 1)),
+            6 => format!("{pre}ReversedType({})", gen_type(depth - 1)),
+            7 => format!("{pre}VectorType({}, {})", gen_type(depth - 1), tape::choose("c08:ct_dim", 5)),
+            _ => {
+                let names = ["udt", "a", "ab", "na\u{e9}", "\u{4e16}\u{754c}", "x_y"];
+                let n = names[tape::choose("c08:ct_udt_name", names.len() as u64) as usize];
+                let f = names[tape::choose("c08:ct_udt_field", names.len() as u64) as usize];
+                format!("{pre}UserType(ks1,{},{}:{})", hex(n), hex(f), gen_type(depth - 1))
+            }
+        }
+    }
+    let mut s = match tape::choose("c08:ct_shape", 8) {
+        // Deep nesting of the textual form (the string is limited to 65535 bytes).
+        0 => {
+            let d = [50usize, 500, 3000, 7000][tape::choose("c08:ct_deep", 4) as usize];
+            let mut t = String::new();
+            for _ in 0..d {
+                t.push_str("ListType(");
+            }
+            t.push_str("Int32Type");
+            for _ in 0..d {
+                t.push(')');
+            }
+            t
+        }
+        _ => gen_type(tape::range("c08:ct_depth", 0, 4) as u32),
+    };
+    // Character-level damage.
+    let alphabet: Vec<char> = "\u{e9}\u{4e16}\u{df}(),: 09afAZ-_.&+'\"\u{0}".chars().collect();
+    for _ in 0..tape::choose("c08:ct_damage", 5) {
+        let chars: Vec<char> = s.chars().collect();
+        if chars.is_empty() {
+            break;
+        }
+        let i = tape::choose("c08:ct_pos", chars.len().min(4000) as u64) as usize;
+        let c = alphabet[tape::choose("c08:ct_char", alphabet.len() as u64) as usize];
+        let mut v = chars;
+        match tape::choose("c08:ct_op", 4) {
+            0 => v[i] = c,
+            1 => v.insert(i, c),
+            2 => {
+                v.remove(i);
+            }
+            _ => v.truncate(i),
+        }
+        s = v.into_iter().collect();
+    }
+    if s.len() > 65000 {
+        s.truncate(65000);
+        while !s.is_char_boundary(s.len()) {
+            s.pop();
+        }
+    }
+    s
 }
